@@ -1234,6 +1234,15 @@ func (x *Exec) invoke(st *State, recv Value, m *types.Func, args []Value, depth 
 }
 
 func (x *Exec) absObjCall(st *State, o *AbsObj, method string, args []Value) []Out {
+	if o.alt != nil {
+		ra := x.absObjCall(st, o.alt.a, method, args)
+		rb := x.absObjCall(st, o.alt.b, method, args)
+		v, ok := iteValue(o.alt.c, ra[0].vals[0], rb[0].vals[0])
+		if !ok {
+			fail("abstract shape: results of %s not mergeable", method)
+		}
+		return []Out{{st: st, vals: []Value{v}}}
+	}
 	if o.fam && x.specMode == 0 && o.nilT != nil {
 		// executing code: a call on a nil element panics, the path continues for a non-nil one
 		st.assume(mkNot(o.nilT))
@@ -1249,6 +1258,16 @@ func (x *Exec) absObjCall(st *State, o *AbsObj, method string, args []Value) []O
 				}
 			}
 			fail("abstract shape family %s: no BoundingBox method", o.name)
+		}
+		if o.bb == nil {
+			// the nil shape: its box is unspecified
+			if it, ok := o.typ.Underlying().(*types.Interface); ok {
+				for i := 0; i < it.NumMethods(); i++ {
+					if m := it.Method(i); m.Name() == "BoundingBox" {
+						o.bb = x.symValue(st, m.Type().(*types.Signature).Results().At(0).Type(), "BB(nil)")
+					}
+				}
+			}
 		}
 		return []Out{{st: st, vals: []Value{o.bb}}}
 	case "Evaluate":
